@@ -359,6 +359,8 @@ pub async fn typed_rpc_roundtrip(_a: &Value) -> Value {
                 "fail-400" => Err(Status::new_with_message(StatusCode::BadRequest, "bad input: é").with_header("x-detail", "d1").with_header("retry-after", "7")),
                 "fail-500" => Err(Status::internal("boom")),
                 "fail-429" => Err(Status::new(StatusCode::TooManyRequests).with_header("wait-nanos", "12345")),
+                // a relay: its own code and message, the headers of the upstream status it got copied across (a status-message header among them)
+                "fail-relay" => Err(Status::new_with_message(StatusCode::NotFound, "user lookup failed upstream").with_header("status-message", "no such user").with_header("x-upstream", "u1")),
                 _ => Ok::<_, Status>(Response::new(s.len() as u64).with_header("x-len", s.len().to_string())),
             }
         });
@@ -372,7 +374,8 @@ pub async fn typed_rpc_roundtrip(_a: &Value) -> Value {
     let sid = caller.connect(server.local_addr()).await.expect("connect");
     let mut out = Vec::new();
     for (input, want_status, want_msg, want_headers) in [("hello", 200u16, None, vec![("x-len", "5")]), ("", 200, None, vec![("x-len", "0")]),
-            ("fail-400", 400, Some("bad input: é"), vec![("x-detail", "d1"), ("retry-after", "7")]), ("fail-500", 500, Some("boom"), vec![]), ("fail-429", 429, None, vec![("wait-nanos", "12345")])] {
+            ("fail-400", 400, Some("bad input: é"), vec![("x-detail", "d1"), ("retry-after", "7")]), ("fail-500", 500, Some("boom"), vec![]), ("fail-429", 429, None, vec![("wait-nanos", "12345")]),
+            ("fail-relay", 404, Some("user lookup failed upstream"), vec![("x-upstream", "u1")])] {
         let mut rpc = anemo::rpc::client::Rpc::new(caller.peer(sid).expect("peer"));
         let r = tokio::time::timeout(Duration::from_secs(3), rpc.unary(Request::new(input.to_owned()).with_route("/m"), BincodeCodec::<String, u64>::default())).await;
         let got = match r {
